@@ -90,28 +90,6 @@ theorem meminv_of {c : Ctx} {l : LEnv} {mem : List Int} (hP : MemInv c l mem) (n
 
 /-! ### body words -/
 
-/-- the word a loop body leaves (after STR_TO_BOOL) is 0, 1 or undefined, and is 1 exactly when the body holds -/
-theorem bodyWord_spec (blocks : List (Nat × Bytes)) (t : Ty) (v : Val) (h : ValOk t v) (hb : BoolWord v) :
-    (boolWord blocks t (toVm v) = 0 ∨ boolWord blocks t (toVm v) = 1 ∨ boolWord blocks t (toVm v) = UNDEF) ∧
-    ((boolWord blocks t (toVm v) == 1) = asBool v) := by
-  by_cases hv : v = .undef
-  · subst hv
-    have := (boolWord_spec blocks t .undef h).1 rfl
-    rw [this]
-    exact ⟨Or.inr (Or.inr rfl), by decide⟩
-  · obtain ⟨h1, h2⟩ := (boolWord_spec blocks t v h).2 hv
-    by_cases ha : asBool v = true
-    · have hk : (!isU (boolWord blocks t (toVm v)) && boolWord blocks t (toVm v) != 0) = true := by
-        rw [h1, h2, ha]; rfl
-      have := boolWord_one blocks t v h hb hk
-      rw [this, ha]
-      exact ⟨Or.inr (Or.inl rfl), by decide⟩
-    · have ha' : asBool v = false := by simpa using ha
-      rw [ha'] at h2
-      have hz : boolWord blocks t (toVm v) = 0 := by simpa [bne] using h2
-      rw [hz, ha']
-      exact ⟨Or.inl rfl, by decide⟩
-
 theorem ones_map {α : Type} (xs : List α) (w : α → Int) (b : α → Val)
     (h : ∀ x ∈ xs, (w x == 1) = asBool (b x)) : ones (xs.map w) = countTrue (xs.map b) := by
   unfold ones countTrue
@@ -185,7 +163,7 @@ theorem step_iterStartStrSet (env : Env) (ws : List Int) (pc : Nat) (st mem : Li
 /-! ### a whole loop against the specification -/
 
 theorem runs_loop_spec (env : Env) (code : List Instr) (c : Ctx) (l : LEnv) (q : QKind) (qe : Expr)
-    (init body : List Instr) (tb : Ty) {α : Type} (vals : List α) (word : α → Int) (bv : α → Val)
+    (init body : List Instr) {α : Type} (vals : List α) (word : α → Int) (bv : α → Val)
     (hd : c.vars.length < 4)
     (hqok : q = .num → ValOk .int (eval env l qe) ∧ eval env l qe ≠ .undef)
     (hq : Runs env code (quantCode (compile c qe) q) c l true [quantWord q (toVm (eval env l qe))])
@@ -194,16 +172,14 @@ theorem runs_loop_spec (env : Env) (code : List Instr) (c : Ctx) (l : LEnv) (q :
         Steps env code ⟨pc, st, mem, its⟩ ⟨pc + init.length, encIt its.length :: st, mem, its ++ [it]⟩)
     (hbody : ∀ x ∈ vals, ∀ pcb st mem its, CodeAt code pcb body → MemInv c l mem → mem.length = 20 →
       getM mem (4 * c.vars.length + 3) = word x →
-      ∃ mem' ext, Steps env code ⟨pcb, st, mem, its⟩
-          ⟨pcb + body.length, boolWord env.blocks tb (toVm (bv x)) :: st, mem', its ++ ext⟩ ∧
-        Agree (4 * c.vars.length + 4) mem' mem)
-    (hbv : ∀ x ∈ vals, ValOk tb (bv x) ∧ BoolWord (bv x))
+      ∃ w mem' ext, Steps env code ⟨pcb, st, mem, its⟩ ⟨pcb + body.length, w :: st, mem', its ++ ext⟩ ∧
+        Agree (4 * c.vars.length + 4) mem' mem ∧ TruthWord (bv x) w)
     (hlen : vals.length < 1152921504606846976) :
     Runs env code (loopCode (quantCode (compile c qe) q) init body (4 * c.vars.length)) c l false
       [toVm (loopHolds (quantOf q (eval env l qe)) (countTrue (vals.map bv)) vals.length)] := by
-  let items : List (Int × Int) := vals.map fun x => (word x, boolWord env.blocks tb (toVm (bv x)))
+  let items : List (Int × Int) := vals.map fun x => (word x, nbWord (bv x))
   have hfst : items.map (·.1) = vals.map word := by simp [items, List.map_map, Function.comp_def]
-  have hsnd : items.map (·.2) = vals.map fun x => boolWord env.blocks tb (toVm (bv x)) := by
+  have hsnd : items.map (·.2) = vals.map fun x => nbWord (bv x) := by
     simp [items, List.map_map, Function.comp_def]
   have hrun := runs_loop env code c l (quantCode (compile c qe) q) init body (4 * c.vars.length) rfl (by omega)
     (quantWord q (toVm (eval env l qe))) hq items
@@ -211,16 +187,17 @@ theorem runs_loop_spec (env : Env) (code : List Instr) (c : Ctx) (l : LEnv) (q :
     (fun p hp pcb st mem its hc hP hl hg => by
       simp only [items, List.mem_map] at hp
       obtain ⟨x, hx, rfl⟩ := hp
-      exact hbody x hx pcb st mem its hc hP hl hg)
+      obtain ⟨w, m, e, hs, ha, htw⟩ := hbody x hx pcb st mem its hc hP hl hg
+      exact ⟨w, m, e, hs, ha, tw_norm htw⟩)
   refine Runs.val1 ?_ hrun
   rw [hsnd]
-  have hbw : BoolWords (vals.map fun x => boolWord env.blocks tb (toVm (bv x))) := by
+  have hbw : BoolWords (vals.map fun x => nbWord (bv x)) := by
     intro r hr
     simp only [List.mem_map] at hr
-    obtain ⟨x, hx, rfl⟩ := hr
-    exact (bodyWord_spec env.blocks tb (bv x) (hbv x hx).1 (hbv x hx).2).1
+    obtain ⟨x, _, rfl⟩ := hr
+    exact (nbWord_cases (bv x)).1
   rw [loop_protocol q (eval env l qe) hqok _ hbw (by simpa using hlen)]
-  rw [ones_map vals _ bv (fun x hx => (bodyWord_spec env.blocks tb (bv x) (hbv x hx).1 (hbv x hx).2).2)]
+  rw [ones_map vals _ bv (fun x _ => (nbWord_cases (bv x)).2)]
   simp
 
 theorem intRange_words (a b : Int) : (intRange (.int a) (.int b)).map toVm = rangeWords a b := by
@@ -232,7 +209,7 @@ theorem runs_compileList (env : Env) (henv : EnvOk env) (code : List Instr) (c :
   | [], _ => by simpa [compileList, evalList] using Runs.nil env code c l true
   | e :: es, hw => by
     simp only [WFList] at hw
-    have h1 := exec_loopfree env henv code e c l (nonbool_loopFree env e c l hw.1 hw.2.2.1) hw.1
+    have h1 := (exec_loopfree env henv code e c l (nonbool_loopFree env e c l hw.1 hw.2.2.1) hw.1).exact hw.2.2.1
     have h2 := runs_compileList env henv code c l es hw.2.2.2
     have := Runs.seq h1 h2
     simpa [compileList, evalList] using this
@@ -246,77 +223,75 @@ theorem runs_quant_wf (env : Env) (henv : EnvOk env) (code : List Instr) (c : Ct
     (hwq : q = .num → WF env c l qe ∧ tyOf c qe = .int ∧ eval env l qe ≠ .undef) :
     Runs env code (quantCode (compile c qe) q) c l true [quantWord q (toVm (eval env l qe))] ∧
     (q = .num → ValOk .int (eval env l qe) ∧ eval env l qe ≠ .undef) := by
-  refine ⟨runs_quant q _ _ (fun h => exec_loopfree env henv code qe c l
-      (nonbool_loopFree env qe c l (hwq h).1 (by rw [(hwq h).2.1]; decide)) (hwq h).1), fun h => ⟨?_, (hwq h).2.2⟩⟩
+  refine ⟨runs_quant q _ _ (fun h => (exec_loopfree env henv code qe c l
+      (nonbool_loopFree env qe c l (hwq h).1 (by rw [(hwq h).2.1]; decide)) (hwq h).1).exact (by rw [(hwq h).2.1]; decide)),
+    fun h => ⟨?_, (hwq h).2.2⟩⟩
   have := wf_typed env c l qe (hwq h).1
   rwa [(hwq h).2.1] at this
 
 /-- the body of a loop, compiled in boolean position, as `runs_loop_spec` wants it -/
 theorem body_runs {env : Env} {code : List Instr} {c c' : Ctx} {l' : LEnv} {body : Expr}
-    (ih : Runs env code (compile c' body) c' l' false [toVm (eval env l' body)])
+    (ih : RunsV env code (compile c' body) c' l' false (tyOf c' body) (eval env l' body))
+    (hty : ValOk (tyOf c' body) (eval env l' body))
     (hlen : c'.vars.length = c.vars.length + 1)
     (pcb : Nat) (st mem : List Int) (its : List Iter)
     (hc : CodeAt code pcb (compile c' body ++ strToBool (tyOf c' body))) (hP' : MemInv c' l' mem) (hl : mem.length = 20) :
-    ∃ mem' ext, Steps env code ⟨pcb, st, mem, its⟩
-        ⟨pcb + (compile c' body ++ strToBool (tyOf c' body)).length,
-          boolWord env.blocks (tyOf c' body) (toVm (eval env l' body)) :: st, mem', its ++ ext⟩ ∧
-      Agree (4 * c.vars.length + 4) mem' mem := by
-  obtain ⟨m, e, s, a, _⟩ := (runs_boolpos _ (tyOf c' body) _ ih) pcb st mem its hc hP' hl
-  refine ⟨m, e, by simpa using s, ?_⟩
+    ∃ w mem' ext, Steps env code ⟨pcb, st, mem, its⟩
+        ⟨pcb + (compile c' body ++ strToBool (tyOf c' body)).length, w :: st, mem', its ++ ext⟩ ∧
+      Agree (4 * c.vars.length + 4) mem' mem ∧ TruthWord (eval env l' body) w := by
+  obtain ⟨w, hr, htw⟩ := ih.boolpos hty
+  obtain ⟨m, e, s, a, _⟩ := hr pcb st mem its hc hP' hl
+  refine ⟨w, m, e, by simpa using s, ?_, htw⟩
   have : 4 * c'.vars.length = 4 * c.vars.length + 4 := by omega
   rw [← this]; exact a
 
 /-- **execution of every well-formed expression**: the code `compile` emits pushes the value `eval` assigns -/
 theorem exec_all (env : Env) (henv : EnvOk env) (code : List Instr) :
-    ∀ (e : Expr) (c : Ctx) (l : LEnv), WF env c l e → Runs env code (compile c e) c l false [toVm (eval env l e)]
+    ∀ (e : Expr) (c : Ctx) (l : LEnv), WF env c l e → RunsV env code (compile c e) c l false (tyOf c e) (eval env l e)
   | .not e, c, l, hw => by
     simp only [WF] at hw
-    have ih := exec_all env henv code e c l hw
-    have ht := wf_typed env c l e hw
+    obtain ⟨w, hr, htw⟩ := (exec_all env henv code e c l hw).boolpos (wf_typed env c l e hw)
+    apply RunsV.ofExact
     have hcode : compile c (.not e) = (compile c e ++ strToBool (tyOf c e)) ++ [.un .OP_NOT] := by simp [compile]
     rw [hcode]
     simp only [eval]
-    exact Runs.val1 (vm_not env.blocks _ _ ht) (Runs.op (.un .OP_NOT) _ _ (runs_boolpos _ _ _ ih) (fun _ _ _ _ => rfl))
+    exact Runs.val1 (tw_not _ htw) (Runs.op (.un .OP_NOT) _ _ hr (fun _ _ _ _ => rfl))
   | .defined e, c, l, hw => by
     simp only [WF] at hw
-    have ih := exec_all env henv code e c l hw
-    have ht := wf_typed env c l e hw
+    obtain ⟨w, hr, htw⟩ := (exec_all env henv code e c l hw).boolpos (wf_typed env c l e hw)
+    apply RunsV.ofExact
     have hcode : compile c (.defined e) = (compile c e ++ strToBool (tyOf c e)) ++ [.un .OP_DEFINED] := by simp [compile]
     rw [hcode]
     simp only [eval]
-    exact Runs.val1 (vm_defined env.blocks _ _ ht) (Runs.op (.un .OP_DEFINED) _ _ (runs_boolpos _ _ _ ih) (fun _ _ _ _ => rfl))
+    exact Runs.val1 (tw_defined _ htw) (Runs.op (.un .OP_DEFINED) _ _ hr (fun _ _ _ _ => rfl))
   | .and a b, c, l, hw => by
     simp only [WF] at hw
     obtain ⟨hwa, hwb⟩ := hw
-    have iha := exec_all env henv code a c l hwa
-    have ihb := exec_all env henv code b c l hwb
-    have hta := wf_typed env c l a hwa
-    have htb := wf_typed env c l b hwb
+    obtain ⟨wa, hra, htwa⟩ := (exec_all env henv code a c l hwa).boolpos (wf_typed env c l a hwa)
+    obtain ⟨wb, hrb, htwb⟩ := (exec_all env henv code b c l hwb).boolpos (wf_typed env c l b hwb)
+    apply RunsV.ofExact
     simp only [compile, eval, vAnd, toVm]
-    rw [← word_truth env.blocks _ _ hta, ← word_truth env.blocks _ _ htb]
-    exact runs_and (runs_boolpos _ _ _ iha) (runs_boolpos _ _ _ ihb)
+    rw [← tw_truth htwa, ← tw_truth htwb]
+    exact runs_and hra hrb
   | .or a b, c, l, hw => by
     simp only [WF] at hw
-    obtain ⟨hwa, hwb, hbw⟩ := hw
-    have iha := exec_all env henv code a c l hwa
-    have ihb := exec_all env henv code b c l hwb
-    have hta := wf_typed env c l a hwa
-    have htb := wf_typed env c l b hwb
-    simp only [compile, eval, vOr, toVm]
-    rw [← word_truth env.blocks _ _ hta, ← word_truth env.blocks _ _ htb]
-    exact runs_or (runs_boolpos _ _ _ iha) (runs_boolpos _ _ _ ihb) (boolWord_one env.blocks _ _ hta hbw)
+    obtain ⟨hwa, hwb⟩ := hw
+    obtain ⟨wa, hra, htwa⟩ := (exec_all env henv code a c l hwa).boolpos (wf_typed env c l a hwa)
+    obtain ⟨wb, hrb, htwb⟩ := (exec_all env henv code b c l hwb).boolpos (wf_typed env c l b hwb)
+    exact or_runsV hra hrb htwa htwb
   | .forRange q qe lo hi body, c, l, hw => by
     simp only [WF] at hw
     obtain ⟨hwq, hwlo, hwhi, htlo, hthi, hd, hrng, hitems⟩ := hw
     obtain ⟨hq, hqok⟩ := runs_quant_wf env henv code c l q qe hwq
-    have hlo := exec_loopfree env henv code lo c l (nonbool_loopFree env lo c l hwlo (by rw [htlo]; decide)) hwlo
-    have hhi := exec_loopfree env henv code hi c l (nonbool_loopFree env hi c l hwhi (by rw [hthi]; decide)) hwhi
+    have hlo := (exec_loopfree env henv code lo c l (nonbool_loopFree env lo c l hwlo (by rw [htlo]; decide)) hwlo).exact (by rw [htlo]; decide)
+    have hhi := (exec_loopfree env henv code hi c l (nonbool_loopFree env hi c l hwhi (by rw [hthi]; decide)) hwhi).exact (by rw [hthi]; decide)
     have tlo := wf_typed env c l lo hwlo
     have thi := wf_typed env c l hi hwhi
     rw [htlo] at tlo
     rw [hthi] at thi
+    apply RunsV.ofExact
     simp only [compile, eval]
-    apply runs_loop_spec env code c l q qe _ _ (tyOf { c with vars := c.vars ++ [.int] } body)
+    apply runs_loop_spec env code c l q qe _ _
       (intRange (eval env l lo) (eval env l hi)) toVm
       (fun v => eval env { l with vars := l.vars ++ [v] } body) hd hqok hq
     · -- iterator set-up
@@ -335,13 +310,11 @@ theorem exec_all (env : Env) (henv : EnvOk env) (code : List Instr) :
           have hmem : Val.int i ∈ intRange (eval env l lo) (eval env l hi) := by
             rw [h1, h2]; exact (mem_intRange a b _).mpr ⟨i, hi1, hi2, rfl⟩
           intro hi; subst hi
-          exact (hitems _ hmem).2.2 rfl
+          exact (hitems _ hmem).2 rfl
     · -- the body
       intro v hv pcb st mem its hc hP hl hg
       have ih := exec_all env henv code body { c with vars := c.vars ++ [.int] } { l with vars := l.vars ++ [v] } (hitems v hv).1
-      exact body_runs ih (by simp) pcb st mem its hc (meminv_var hP .int v hg) hl
-    · intro v hv
-      exact ⟨wf_typed env _ _ body (hitems v hv).1, (hitems v hv).2.1⟩
+      exact body_runs ih (wf_typed env _ _ body (hitems v hv).1) (by simp) pcb st mem its hc (meminv_var hP .int v hg) hl
     · rcases tlo with h1 | ⟨a, h1, _⟩
       · rw [h1]; simp [intRange]
       · rcases thi with h2 | ⟨b, h2, _⟩
@@ -354,10 +327,10 @@ theorem exec_all (env : Env) (henv : EnvOk env) (code : List Instr) :
     obtain ⟨hwq, hwl, hd, hn, hitems⟩ := hw
     obtain ⟨hq, hqok⟩ := runs_quant_wf env henv code c l q qe hwq
     have hl0 := runs_compileList env henv code c l items hwl
+    apply RunsV.ofExact
     simp only [compile, eval]
     have hlen : ((evalList env l items).map toVm).length = items.length := by simp [evalList_length]
     apply runs_loop_spec env code c l q qe _ _
-      (tyOf { c with vars := c.vars ++ [enumTy c items] } body)
       (evalList env l items) toVm (fun v => eval env { l with vars := l.vars ++ [v] } body) hd hqok hq
     · intro pc st mem its hc hP hl
       refine ⟨.list ((evalList env l items).map toVm) 0, by simpa using yields_list ((evalList env l items).map toVm) 0, ?_⟩
@@ -368,20 +341,18 @@ theorem exec_all (env : Env) (henv : EnvOk env) (code : List Instr) :
       · simp only [hs, Bool.false_eq_true, if_false] at hc ⊢
         exact init_list _ _ hl0 _ (step_iterStartEnum env _) pc st mem its hc hP hl
     · intro v hv pcb st mem its hc hP hl hg
-      have ih := exec_all env henv code body _ { l with vars := l.vars ++ [v] } (hitems v hv).1
-      exact body_runs ih (by simp) pcb st mem its hc (meminv_var hP _ v hg) hl
-    · intro v hv
-      exact ⟨wf_typed env _ _ body (hitems v hv).1, (hitems v hv).2⟩
+      have ih := exec_all env henv code body _ { l with vars := l.vars ++ [v] } (hitems v hv)
+      exact body_runs ih (wf_typed env _ _ body (hitems v hv)) (by simp) pcb st mem its hc (meminv_var hP _ v hg) hl
     · rw [evalList_length]; exact hn
   | .forOf q qe set body, c, l, hw => by
     simp only [WF] at hw
     obtain ⟨hwq, hd, hn, hitems⟩ := hw
     obtain ⟨hq, hqok⟩ := runs_quant_wf env henv code c l q qe hwq
+    apply RunsV.ofExact
     simp only [compile, eval]
     have hcount : countTrue (set.map fun n => eval env { vars := l.vars ++ [.undef], cur := some n } body) =
         countTrue (set.map fun n => eval env { vars := l.vars ++ [.undef], cur := some n } body) := rfl
     apply runs_loop_spec env code c l q qe _ _
-      (tyOf { c with vars := c.vars ++ [.bool], ofSlot := some (4 * c.vars.length + 3) } body)
       set encStr (fun n => eval env { vars := l.vars ++ [.undef], cur := some n } body) hd hqok hq
     · intro pc st mem its hc hP hl
       refine ⟨.list (set.map encStr) 0, by simpa using yields_list (set.map encStr) 0, ?_⟩
@@ -405,10 +376,8 @@ theorem exec_all (env : Env) (henv : EnvOk env) (code : List Instr) :
       simpa [Nat.add_assoc] using this
     · intro n hnm pcb st mem its hc hP hl hg
       have ih := exec_all env henv code body { c with vars := c.vars ++ [.bool], ofSlot := some (4 * c.vars.length + 3) }
-        { vars := l.vars ++ [.undef], cur := some n } (hitems n hnm).1
-      exact body_runs ih (by simp) pcb st mem its hc (meminv_of hP n hg) hl
-    · intro n hnm
-      exact ⟨wf_typed env _ _ body (hitems n hnm).1, (hitems n hnm).2⟩
+        { vars := l.vars ++ [.undef], cur := some n } (hitems n hnm)
+      exact body_runs ih (wf_typed env _ _ body (hitems n hnm)) (by simp) pcb st mem its hc (meminv_of hP n hg) hl
     · exact hn
   | .int v, c, l, hw => (exec_loopfree env henv code _ c l rfl hw).weaken
   | .flt f, c, l, hw => absurd hw (by simp [WF])
